@@ -396,6 +396,19 @@ class Gen:
             return {"t": "F.Squeeze", "re": z[0], "im": z[1]}
         return {"t": "F.PhaseShift", "phi": self.angle()}
 
+    def _reuse_ok(self, spec, pre, sub):
+        """Keep Fock cutoffs bounded when pooled operations are applied again and again."""
+        t = spec["t"]
+        if t in ("F.Displace", "F.Squeeze", "F.Creation") or (t == "F.Expr" and spec.get("form") == "rot"):
+            s = actions.support(pre, sub) or 0
+            b = pre.block_of(sub)
+            lim = 3 if t == "F.Creation" else 2
+            return s <= lim and b is not None and b.D <= 16
+        if t == "F.Custom":
+            s = actions.support(pre, sub) or 0
+            return s <= spec["d"]
+        return True
+
     def _op1(self, world, pre, client):
         rng = self.rng
         subs = self._subs(world, pre, client)
@@ -408,7 +421,7 @@ class Gen:
         sub = rng.choice(subs)
         if self.prof.get("reuse") or rng.random() < 0.5:
             # reuse a pooled operation of the right kind
-            cands = [k for k, v in self.ops.items() if specs.operand_kinds(v) == [world.kind(sub)]]
+            cands = [k for k, v in self.ops.items() if specs.operand_kinds(v) == [world.kind(sub)] and self._reuse_ok(v, pre, sub)]
             if cands and rng.random() < 0.6:
                 name = rng.choice(cands)
                 entry, extra = self._entry_for(world, pre, sub)
